@@ -75,6 +75,12 @@ Definition gassner_cycles (lm : curve -> coll -> R) (c : curve) (l : coll) : opt
 Definition gassner_cycles_occ (lm : curve -> coll -> R) (c : curve) (l : coll) : option R :=
   match cycles c (max_occ l) with None => None | Some N => Some (N * lm c l) end.
 
+(* MinerBase.gassner_cycles for a curve with scatter whose NATIVE failure probability is not 50 %: `self.cycles(...)` reads the curve
+   transformed to 50 % (c50: SD, ND as WoehlerCurve.transform_to_failure_probability(0.5) reports them), whereas
+   `self.lifetime_multiple` reads `self.SD` / `self.k_1` of the native curve (cn).  With cn = c50 this is gassner_cycles. *)
+Definition gassner_cycles_split (lm : curve -> coll -> R) (c50 cn : curve) (l : coll) : option R :=
+  match cycles c50 (max_amp l) with None => None | Some N => Some (N * lm cn l) end.
+
 (* MinerElementary.gassner: the Woehler curve shifted by the lifetime multiple *)
 Definition gassner_curve (c : curve) (l : coll) : curve :=
   mkCurve (k1 c) (k2 c) (ND c * lm_elementary c l) (SD c).
